@@ -341,6 +341,13 @@ type seqRun struct {
 	nview      int                // views are numbered in order of creation, numbers are never reused
 	memMode    bool
 	deep       bool
+	made       map[types.HashHeight]madeCommit // every commit made on the frontier, with its patch
+	popped     *madeCommit                     // the commit the last Pop took off (re-delivered now and then)
+}
+
+type madeCommit struct {
+	c   *commit
+	ops []pop
 }
 
 func (s *seqRun) op(o interface{}, a interface{}) {
@@ -390,6 +397,11 @@ func (s *seqRun) doAdd(stale bool) {
 		}
 		s.r.add(c, ops)
 		s.past = append(s.past, c.id)
+		if s.made == nil {
+			s.made = map[types.HashHeight]madeCommit{}
+		}
+		s.made[c.id] = madeCommit{c, ops}
+		s.popped = nil
 		s.checkFrontier("add-applies-patch")
 	} else {
 		// property: any other parent is refused without changing the store
@@ -438,9 +450,34 @@ func (s *seqRun) doPop() {
 		s.out.Oracle(false, "pop-failed", M{"err": err.Error()})
 		return
 	}
+	top := s.r.frontier()
 	s.r.pop()
 	s.tag["pop"] = true
 	s.checkFrontier("pop-restores-previous-state")
+	s.popped = nil
+	if mc, ok := s.made[top]; ok {
+		s.popped = &mc
+	}
+}
+
+// doReAdd: the commit that was just rolled back is delivered again — the same identifier, the same patch (what a node
+// does that abandoned a branch and then meets it again, or that was interrupted in a reorganisation): it applies again
+// and the store is what it was before the rollback
+func (s *seqRun) doReAdd() {
+	if s.popped == nil || s.popped.c.prev != s.r.frontier() {
+		return
+	}
+	mc := *s.popped
+	s.popped = nil
+	err := s.m.Add(&tx{c: mc.c, p: mkPatch(mc.ops)})
+	s.op(Con("OAdd", idT(mc.c.prev), idT(mc.c.id), Byt(mc.c.data), patchT(mc.ops)), Con("ABool", err == nil))
+	if err != nil {
+		s.out.Oracle(false, "re-delivered-commit-refused", M{"err": err.Error(), "id": fmt.Sprint(mc.c.id)})
+		return
+	}
+	s.r.add(mc.c, mc.ops)
+	s.tag["re-add-after-pop"] = true
+	s.checkFrontier("re-delivered-commit-applies-again")
 }
 
 func (s *seqRun) doGet(slot int) {
@@ -803,6 +840,9 @@ func runSeq(rng *rand.Rand, out *Out, steps int, mode string) {
 		case x < 30:
 			if mode == "reorg" || rng.Intn(2) == 0 {
 				s.doPop()
+				if s.rng.Intn(3) == 0 {
+					s.doReAdd()
+				}
 			}
 		case x < 45:
 			s.nview++
@@ -853,6 +893,9 @@ func runSeq(rng *rand.Rand, out *Out, steps int, mode string) {
 			k := 1 + rng.Intn(3)
 			for j := 0; j < k; j++ {
 				s.doPop()
+				if s.rng.Intn(3) == 0 {
+					s.doReAdd()
+				}
 			}
 			for j := 0; j < k+1; j++ {
 				s.doAdd(false)
